@@ -18,11 +18,75 @@ NOTE = "Decides necessary conditions only; a wrong carry chain inside a kernel i
 
 
 def run(res, programs, tier):
+    for P in programs:
+        if "dashu_int" in P.units:
+            _r01_4(res, P, P.name)
     intalg.r01_1(res, programs, "R01.1")
     intalg.r01_2(res, programs, "R01.2", "mul")
     intalg.r_sign_tables(res, programs, "R01.3", intalg.OPS)
     from . import c19
     c19.shared_r19_2(res, programs)
+
+
+# ---------------------------------------------------------------------------------------------
+# R01.4  Buffer::push_resizing(w) appends w only when it is non-zero: it is the idiom for the *most
+# significant* carry word.  After it the length of the buffer is unknown by one, so the next operation on
+# the same buffer must not be another positional append (push / push_resizing / push_slice / push_zeros):
+# a skipped zero word followed by a pushed higher word stores that word one position too low.
+PUSHES = ("Buffer::push", "Buffer::push_resizing", "Buffer::push_slice", "Buffer::push_zeros", "Buffer::push_repeat")
+
+
+def _buf_root(t):
+    from .c17b import strip_bb
+    t = strip_bb(t)
+    while isinstance(t, tuple) and t[0] in ("ref", "refmut", "place", "cast"):
+        t = t[2] if t[0] == "cast" else t[1]
+        t = strip_bb(t)
+    return t
+
+
+def _r01_4(res, P, cfgname):
+    from . import mir, sym
+    res.rule("R01.4", "after Buffer::push_resizing (which skips a zero word) the next operation on the same buffer is never another positional append")
+    n = 0
+    for f in P.fns("dashu_int"):
+        b = f.get("mir")
+        if not b:
+            continue
+        calls = {bb: (t, fr) for bb, t, fr in mir.iter_calls(b) if fr}
+        rs = [(bb, t) for bb, (t, fr) in calls.items() if (fr.get("rp") or fr["p"]).endswith("Buffer::push_resizing")]
+        if not rs:
+            continue
+        S = sym.Sym(f)
+        cfg = mir.cfg_of(b)
+        k = 0
+        for bb, t in rs:
+            k += 1
+            n += 1
+            r0 = _buf_root(S.operand(t["a"][0]))
+            bad = None
+            seen, st = set(), [t["t"]] if t.get("t") is not None else []
+            while st and bad is None:
+                x = st.pop()
+                if x in seen:
+                    continue
+                seen.add(x)
+                c = calls.get(x)
+                if c is not None:
+                    t2, fr2 = c
+                    cp2 = fr2.get("rp") or fr2["p"]
+                    touches = any(_buf_root(S.operand(a)) == r0 for a in t2["a"])
+                    if touches:
+                        if cp2.endswith(PUSHES):
+                            bad = (cp2.rsplit("::", 1)[-1], t2)
+                        continue      # the buffer is used by something else first: position known again
+                st.extend(cfg.succ[x])
+            key = "%s push_resizing #%d" % (f["p"], k)
+            if bad:
+                res.fail("R01.4", cfgname, key, "%s calls %s on the same buffer right after push_resizing: if the first word is zero it is skipped and the next word lands one position too low" % (f["p"], bad[0]), mir.span_loc(bad[1]["sp"]))
+            else:
+                res.ok("R01.4", cfgname, key)
+    res.floor("R01.4", cfgname, n, 10, "push_resizing call sites")
 
 
 LEVEL = LEVEL + ' Also (R19.2, shared) no arithmetic step of the integer kernels sits inside a debug assertion.'
